@@ -158,7 +158,7 @@ func familyNameFeeding(v ssa.Value) ssa.Value {
 			if sc == nil {
 				return nil
 			}
-			switch sc.Name() {
+			switch core.FuncName(sc) {
 			case "getOrCreateColumn", "getColumn":
 				v = x.Call.Args[0]
 			case "getOrCreateFamily", "getFamily":
@@ -241,7 +241,7 @@ func R08(group string) Rule {
 						if st, ok := in.(*ssa.Store); ok {
 							if fa, ok := st.Addr.(*ssa.FieldAddr); ok {
 								if _, fld, _ := core.FieldName(fa); fld == "Cells" {
-									if call, ok := core.Resolve(fa.X).(*ssa.Call); ok && call.Call.StaticCallee() != nil && call.Call.StaticCallee().Name() == "getColumn" {
+									if call, ok := core.Resolve(fa.X).(*ssa.Call); ok && call.Call.StaticCallee() != nil && core.FuncName(call.Call.StaticCallee()) == "getColumn" {
 										wb = st
 									}
 								}
